@@ -83,7 +83,7 @@ Proof.
   assert (E1 : (cap <? count * k) = false) by (apply N.ltb_ge; exact C). rewrite E1.
   destruct (bss_scatter_gather (N.to_nat k) (N.to_nat count) values) as [enc [G [Le S]]]; [unfold len in L; lia|].
   exists enc. split; [exact G|]. assert (LE : len enc = count * k) by (unfold len; lia).
-  split; [exact LE|]. rewrite LE, N.ltb_irrefl. exact S.
+  split; [exact LE|]. rewrite LE, N.div_mul by exact Hk. rewrite N.ltb_irrefl. exact S.
 Qed.
 
 Corollary bss_roundtrip_float values count cap :
@@ -100,30 +100,28 @@ Example bss_roundtrip_ex :
   bss_encode 3 [1;2;3;17;18;19] 2 6 = Ok [1;17;2;18;3;19] /\ bss_decode 3 [1;17;2;18;3;19] 2 = Ok [1;2;3;17;18;19].
 Proof. split; vm_compute; reflexivity. Qed.
 
-(** C08: the decoder never reads outside [data] and produces exactly [count * k] bytes, the declared output size.
-    [count * k < 2^64]: otherwise the size_t product wraps below the number of bytes the loops touch - but an
-    output array of that size cannot exist. *)
-Theorem bss_decode_never_faults k data count : count * k < 2 ^ 64 -> forall f, bss_decode k data count <> Fault f.
+(** C08: the decoder never reads outside [data] and produces exactly [count * k] bytes, the declared output size *)
+Theorem bss_decode_never_faults k data count : forall f, bss_decode k data count <> Fault f.
 Proof.
-  intros B f. unfold bss_decode. destruct (k =? 0); [discriminate|].
-  rewrite size_t_small by exact B.
-  destruct (len data <? count * k) eqn:E; [discriminate|]. apply N.ltb_ge in E.
+  intros f. unfold bss_decode. destruct (N.eqb_spec k 0) as [|NZ]; [discriminate|].
+  destruct (len data / k <? count) eqn:E; [discriminate|]. apply N.ltb_ge in E.
+  pose proof (div_le_mul _ _ _ NZ E) as M.
   unfold bss_scatter.
   destruct (collect_no_fault (N.to_nat count * N.to_nat k)
               (fun j => rd data ((j mod N.to_nat k) * N.to_nat count + j / N.to_nat k)%nat)) as [l [R _]].
-  - intros j Hj. eexists. apply rd_nth. pose proof (scatter_index_lt _ _ _ Hj). unfold len in E. lia.
+  - intros j Hj. eexists. apply rd_nth. pose proof (scatter_index_lt _ _ _ Hj). unfold len in M. lia.
   - rewrite R. discriminate.
 Qed.
 
-Theorem bss_decode_result_size k data count out : bss_decode k data count = Ok out -> count * k < 2 ^ 64 ->
-  len out = count * k.
+Theorem bss_decode_result_size k data count out : bss_decode k data count = Ok out ->
+  len out = count * k /\ count * k <= len data.
 Proof.
-  unfold bss_decode. intros H B. destruct (k =? 0); [discriminate|].
-  rewrite size_t_small in H by exact B.
-  destruct (len data <? count * k) eqn:E; [discriminate|]. apply N.ltb_ge in E.
+  unfold bss_decode. intros H. destruct (N.eqb_spec k 0) as [|NZ]; [discriminate|].
+  destruct (len data / k <? count) eqn:E; [discriminate|]. apply N.ltb_ge in E.
+  pose proof (div_le_mul _ _ _ NZ E) as M.
   unfold bss_scatter in H.
   destruct (collect_no_fault (N.to_nat count * N.to_nat k)
               (fun j => rd data ((j mod N.to_nat k) * N.to_nat count + j / N.to_nat k)%nat)) as [l [R Ll]].
-  - intros j Hj. eexists. apply rd_nth. pose proof (scatter_index_lt _ _ _ Hj). unfold len in E. lia.
-  - rewrite R in H. injection H as <-. unfold len. lia.
+  - intros j Hj. eexists. apply rd_nth. pose proof (scatter_index_lt _ _ _ Hj). unfold len in M. lia.
+  - rewrite R in H. injection H as <-. split; [unfold len; lia|exact M].
 Qed.
